@@ -87,11 +87,12 @@ Section ArcsPoly.
     = arcs_core (fst (create_arcs ltb zero top thr one k n w g2)) /\
     snd (create_arcs ltb zero top thr one k n w g1) = snd (create_arcs ltb zero top thr one k n w g2).
   Proof.
-    intros H. unfold create_arcs.
-    pose proof (arcs_fold_indep k n w (seq 0 n) (g1, repeat zero k, repeat 0 (S k))
-                  (g2, repeat zero k, repeat 0 (S k)) (conj H (conj eq_refl eq_refl))) as He.
-    destruct (fold_left (node k n w) (seq 0 n) (g1, repeat zero k, repeat 0 (S k))) as [[h1 m1] n1].
-    destruct (fold_left (node k n w) (seq 0 n) (g2, repeat zero k, repeat 0 (S k))) as [[h2 m2] n2].
+    intros H. unfold create_arcs, create_arcs_acc.
+    assert (H' : arcs_core (reset_gdens zero g1) = arcs_core (reset_gdens zero g2)) by exact H.
+    pose proof (arcs_fold_indep k n w (seq 0 n) (reset_gdens zero g1, repeat zero k, repeat 0 (S k))
+                  (reset_gdens zero g2, repeat zero k, repeat 0 (S k)) (conj H' (conj eq_refl eq_refl))) as He.
+    destruct (fold_left (node k n w) (seq 0 n) (reset_gdens zero g1, repeat zero k, repeat 0 (S k))) as [[h1 m1] n1].
+    destruct (fold_left (node k n w) (seq 0 n) (reset_gdens zero g2, repeat zero k, repeat 0 (S k))) as [[h2 m2] n2].
     destruct He as (Hc & Hm & _). cbn [fst snd] in Hc, Hm. cbn [fst snd]. split; [|exact Hm].
     unfold arcs_core, arcs_frame in *.
     cbn [k_label k_adj k_radius k_nplat k_dens k_cost k_pred k_root k_plabel k_clabel k_order k_gdens k_nclusters].
@@ -138,9 +139,13 @@ Section ArcsPoly.
   Theorem create_arcs_kept thr one k n w (g : @knn W) :
     arcs_kept g (fst (create_arcs ltb zero top thr one k n w g)).
   Proof.
-    unfold create_arcs.
-    pose proof (arcs_fold_kept k n w g (seq 0 n) g (repeat zero k) (repeat 0 (S k)) (arcs_kept_refl g)) as H.
-    destruct (fold_left (node k n w) (seq 0 n) (g, repeat zero k, repeat 0 (S k))) as [[g1 m1] n1].
+    unfold create_arcs, create_arcs_acc.
+    assert (Hr : arcs_kept g (reset_gdens zero g)).
+    { constructor; unfold arcs_frame, np_zero;
+        cbn [reset_gdens k_label k_adj k_radius k_nplat k_dens k_cost k_pred k_root k_plabel k_clabel k_order k_gdens k_nclusters];
+        auto. }
+    pose proof (arcs_fold_kept k n w g (seq 0 n) (reset_gdens zero g) (repeat zero k) (repeat 0 (S k)) Hr) as H.
+    destruct (fold_left (node k n w) (seq 0 n) (reset_gdens zero g, repeat zero k, repeat 0 (S k))) as [[g1 m1] n1].
     cbn [fst] in *. destruct H as [Hf Ha Hl Hz].
     constructor; unfold arcs_frame, np_zero in *;
       cbn [k_label k_adj k_radius k_nplat k_dens k_cost k_pred k_root k_plabel k_clabel k_order k_gdens k_nclusters];
